@@ -4,6 +4,7 @@ import (
 	"fmt"
 	"go/ast"
 	"go/token"
+	"go/types"
 	"math/big"
 	"strings"
 )
@@ -190,4 +191,68 @@ func genTLS(repo string, write writer) {
 		fmt.Fprintf(b, "def %s : Nat := %s\n", lean, val("gmtls."+c, c))
 	}
 	write("TLSTables.lean", b, "Gen.TLS")
+	genConnInterlock(p, write)
+}
+
+// genConnInterlock pins the constants of the Write/Close interlock of gmtls.Conn (conn.go): the value a Write
+// adds to activeCall when it passes the gate, the bit Close sets, the value Write releases, and the masks of the
+// two "already closed" tests.
+func genConnInterlock(p *pkgInfo, write writer) {
+	b := header("Gen.Conn")
+	type found struct{ casWrite, casClose, release, maskWrite, maskClose string }
+	var f found
+	scan := func(name string) {
+		fd := p.findFunc("Conn", name)
+		if fd == nil {
+			fail("gmtls.Conn."+name, "not found")
+			return
+		}
+		ast.Inspect(fd.Body, func(n ast.Node) bool {
+			switch x := n.(type) {
+			case *ast.CallExpr:
+				fn := types.ExprString(x.Fun)
+				if strings.HasSuffix(fn, "CompareAndSwapInt32") && len(x.Args) == 3 && strings.Contains(types.ExprString(x.Args[0]), "activeCall") {
+					if be, ok := x.Args[2].(*ast.BinaryExpr); ok {
+						v := be.Op.String() + types.ExprString(be.Y)
+						if name == "Write" {
+							f.casWrite = v
+						} else {
+							f.casClose = v
+						}
+					}
+				}
+				if strings.HasSuffix(fn, "AddInt32") && len(x.Args) == 2 && strings.Contains(types.ExprString(x.Args[0]), "activeCall") && name == "Write" {
+					if v, ok := evalInt(x.Args[1]); ok {
+						f.release = v.String()
+					}
+				}
+			case *ast.BinaryExpr:
+				// x&1 != 0
+				if x.Op == token.NEQ {
+					if l, ok := x.X.(*ast.BinaryExpr); ok && l.Op == token.AND && types.ExprString(l.X) == "x" {
+						if name == "Write" {
+							f.maskWrite = types.ExprString(l.Y)
+						} else {
+							f.maskClose = types.ExprString(l.Y)
+						}
+					}
+				}
+			}
+			return true
+		})
+	}
+	scan("Write")
+	scan("Close")
+	num := func(item, v, prefix string) string {
+		if !strings.HasPrefix(v, prefix) {
+			fail("gmtls.Conn.interlock", "%s: expected an expression starting with %q, found %q", item, prefix, v)
+			return "0"
+		}
+		return strings.TrimPrefix(v, prefix)
+	}
+	fmt.Fprintf(b, "/-- `CompareAndSwapInt32(&c.activeCall, x, x+N)` in Conn.Write -/\ndef writeInc : Nat := %s\n", num("Write CAS", f.casWrite, "+"))
+	fmt.Fprintf(b, "/-- `CompareAndSwapInt32(&c.activeCall, x, x|N)` in Conn.Close -/\ndef closedBit : Nat := %s\n", num("Close CAS", f.casClose, "|"))
+	fmt.Fprintf(b, "/-- `defer atomic.AddInt32(&c.activeCall, -N)` in Conn.Write -/\ndef releaseDec : Nat := %s\n", num("Write release", f.release, "-"))
+	fmt.Fprintf(b, "/-- mask of the `x&N != 0` test in Conn.Write / Conn.Close -/\ndef writeMask : Nat := %s\ndef closeMask : Nat := %s\n", num("Write mask", "="+f.maskWrite, "="), num("Close mask", "="+f.maskClose, "="))
+	write("ConnFacts.lean", b, "Gen.Conn")
 }
